@@ -35,15 +35,14 @@ def gen_cases(ctx):
     ngen = 24 if quick else 300
     for i in range(ngen):
         inputs.append(dict(kind="gen", name="gen%d" % i, gseed=rng.randrange(1 << 30)))
+    for i in range(8 if quick else 80):
+        inputs.append(dict(kind="late", name="late%d" % i, gseed=rng.randrange(1 << 30)))
     maxcuts = (10 if quick else 48)
     if ctx.params.get("cases"):
         maxcuts = max(1, ctx.params["cases"] // max(1, len(inputs)))
     cid = 0
     for inp in inputs:
-        if inp["kind"] == "example":
-            txt = examples.text(ctx.repo, inp["name"])
-        else:
-            txt = gens.multi_sim_input(ctx.rng("gen", inp["gseed"]))
+        txt = _input_text(ctx, inp)[0]
         pieces = examples.split_simulations(txt)
         k = len(pieces)
         if k < 2:
@@ -69,9 +68,41 @@ def gen_cases(ctx):
             yield dict(id="%s-%d" % (inp["name"], cid), inp=inp, cuts=list(cs), deliv=deliv)
 
 
+def late_definition_input(r):
+    """SELECTED_OUTPUT / USER_PUNCH are defined once, in the first simulation, and name a phase, an aqueous species and an element that only later simulations
+    add to the database (PHASES, SOLUTION_SPECIES, SOLUTION_MASTER_SPECIES), without repeating the SELECTED_OUTPUT block: the names must be resolved again
+    whenever the model changes, wherever the call boundaries fall"""
+    f = gens.fmt
+    ph = r.choice(["MyHalite", "Zsalt", "Q_phase"])
+    t = ("SELECTED_OUTPUT 1\n -reset false\n -pH true\n -si Calcite %s\n -equilibrium_phases %s Calcite\n -molalities NaCl Na+\n -activities NaCl\n -totals Tr Na\n"
+         "USER_PUNCH 1\n -headings si_ud lm_ud tr\n -start\n 10 PUNCH SI(\"%s\"), LM(\"NaCl\"), TOT(\"Tr\")\n -end\n" % (ph, ph, ph))
+    t += "SOLUTION 1\n pH %s\n Na %s\n Cl %s charge\n Ca %s\n C(4) %s\nEND\n" % (f(round(r.uniform(6, 8.5), 2)), f(gens.loguni(r, 1, 100)), f(gens.loguni(r, 1, 100)), f(gens.loguni(r, 0.1, 5)), f(gens.loguni(r, 0.1, 5)))
+    defs = ["PHASES\n%s\n NaCl = Na+ + Cl-\n log_k %s\n" % (ph, f(round(r.uniform(-1, 1.5), 2))),
+            "SOLUTION_SPECIES\nNa+ + Cl- = NaCl\n log_k %s\n" % f(round(r.uniform(-1.5, 0.5), 2)),
+            "SOLUTION_MASTER_SPECIES\nTr Tr 0 Tr 100\nSOLUTION_SPECIES\nTr = Tr\n log_k 0\n"]
+    r.shuffle(defs)
+    cur = 1
+    for k in range(r.randint(2, 5)):
+        if defs and r.random() < 0.8:
+            t += defs.pop()
+        if "PHASES\n" + ph in t and r.random() < 0.7:
+            t += "USE solution %d\nEQUILIBRIUM_PHASES %d\n %s 0 %s\n Calcite 0 %s\n" % (cur, k + 1, ph, f(gens.loguni(r, 0.01, 2)), f(r.choice([0, 0.01])))
+        else:
+            t += "USE solution %d\nREACTION %d\n NaCl 1\n %s mol\n" % (cur, k + 1, f(gens.loguni(r, 1e-3, 0.1)))
+        if "Tr Tr 0" in t and r.random() < 0.5:
+            t += "SOLUTION %d\n Tr %s\n Na 1\n Cl 1\n" % (20 + k, f(gens.loguni(r, 0.1, 10)))
+        if r.random() < 0.5:
+            cur += 1
+            t += "SAVE solution %d\n" % cur
+        t += "END\n"
+    return t
+
+
 def _input_text(ctx, inp):
     if inp["kind"] == "example":
         return examples.text(ctx.repo, inp["name"]), examples.db(ctx.repo, inp["name"])
+    if inp["kind"] == "late":
+        return late_definition_input(ctx.rng("late", inp["gseed"])), os.path.join(ctx.db, "phreeqc.dat")
     return gens.multi_sim_input(ctx.rng("gen", inp["gseed"])), os.path.join(ctx.db, "phreeqc.dat")
 
 
